@@ -179,77 +179,147 @@ def c1(repo: Repo) -> RuleResult:
     res = RuleResult("C1", floor=25)
     m = get_model(repo)
 
-    # ---- interval entries
+    # ---- interval entries: the validator hook is summarised (class helpers inlined) and folded over
+    #      boundary values of the constrained quantity; it must raise exactly outside the documented range
+    from .flows import compiler_flow
+    from .fold import by_name, lit_value
+    from .normal import show as _show
+    from .pyflow import _atoms_of
+
+    def hook_paths(cname: str, meth: str) -> Tuple[Any, List[Any]]:
+        c_ = m.cls(cname, "_ast.py")
+        f_ = m.lookup(c_, meth)
+        if f_ is None:
+            raise Inconclusive(f"{cname}.{meth} vanished")
+        prim = ("nbits", "nbytes", "get_option_as_int_or_raise", "is_frozen", "ahead_nbits", "fields", "sorted_fields")
+        fl_ = compiler_flow(repo, cname, "_ast.py", primitives=prim, pure=prim + ("from_token",))
+        return f_, fl_.run(f_.node)
+
+    def outcome(paths: List[Any], repl: Any, exc: str, relevant: Tuple[str, ...]) -> Tuple[Optional[bool], Optional[str]]:
+        """(raises exc?, undecided literal) at one point of the grid"""
+        raising = returning = False
+        undecided = None
+        for p_ in paths:
+            vals = [lit_value(k_, t_, repl) for k_, t_ in p_.guards]
+            if any(v is False for v in vals):
+                continue
+            for (k_, t_), v in zip(p_.guards, vals):
+                if v is None and any(any(r_ in _show(x) for r_ in relevant) for x in k_[1:] if hasattr(x, "terms")):
+                    undecided = " and ".join(p_.guard_text())
+            rz = [e for e in p_.effects if e.kind == "raise"]
+            if p_.done == "raise" and rz and exc in rz[-1].name:
+                raising = True
+            elif p_.done == "raise":
+                pass  # another constraint's error
+            else:
+                returning = True
+        if undecided:
+            return None, undecided
+        if raising and not returning:
+            return True, None
+        if returning and not raising:
+            return False, None
+        return None, "both outcomes feasible" if raising else "no feasible path"
+
+    def point(var: str, v: int) -> Any:
+        calls = {"get_option_as_int_or_raise": 0}
+        vals = {"self._is_missing": 0}
+        if var.endswith("()"):
+            nm = var[:-2].split(".")[-1]
+            calls[nm] = v
+            if nm == "nbits":
+                calls["nbytes"] = (v + 7) // 8
+        else:
+            vals[var] = v
+        return by_name(vals, calls)
+
     for cls, rel, qual, var, want, example in INTERVAL_CATALOGUE:
+        cname, meth = qual.split(".")
         try:
-            fi = m.func(rel, qual)
+            fi, paths = hook_paths(cname, meth)
         except Inconclusive as e:
             res.unsure(f"C1: {e}")
             continue
-        rs = _raises_of(fi.node, cls)
-        if not rs:
+        if not any(e.kind == "raise" and cls in e.name for p_ in paths for e in p_.effects):
             res.bad(Finding("C1", fi.rel, fi.node.lineno, qual, "", f"{cls} is no longer raised here: the constraint `{ERROR_CATALOGUE[cls]}` is not enforced", witness=example, tag=f"{cls}:missing"))
             continue
-        # the first raise is the range check; further raises (max_bytes) handled below
-        r = rs[0]
-        got = accept_interval(r, fi.node, var)
-        if got is None:
-            # is the bound applied to some other quantity?
-            other = None
-            for t, truth in facts_at(r, fi.node, skip_raise_siblings=True):
-                for cmpn in ast.walk(t):
-                    if isinstance(cmpn, ast.Compare):
-                        for side in [cmpn.left] + list(cmpn.comparators):
-                            if _const_int(side) is None and src_of(side) != var:
-                                other = side
-            if other is not None:
-                srcs = [src_of(a.value) for a in ast.walk(fi.node) if isinstance(a, ast.Assign) and isinstance(other, ast.Name) and any(isinstance(tg, ast.Name) and tg.id == other.id for tg in a.targets)]
-                if isinstance(other, ast.Name) and srcs == [var]:
-                    got = accept_interval(r, fi.node, other.id)
-                else:
-                    res.inst(part="interval", error=cls, where=qual, accepted=f"bound on {src_of(other)}", documented=str(want))
-                    res.bad(Finding("C1", fi.rel, r.lineno, qual, src_of(_if_of(r)), f"the documented limit on `{var}` is applied to `{src_of(other)}`" + (f" = {srcs[0]}" if len(srcs) == 1 else "") + " instead", witness=example + " (e.g. an extensible message whose fields alone fit but whose 16-bit prefix pushes it over the limit)", tag=f"{cls}:quantity"))
-                    continue
-        res.inst(part="interval", error=cls, where=qual, accepted=str(got), documented=str(want))
-        if got is None:
-            res.unsure(f"C1: {qual}: guard of `raise {cls}` is not a conjunction of bounds on {var}")
+        lo, hi = want
+        grid = sorted({x for b_ in (lo, hi) if b_ not in (INF, -INF) for x in (int(b_) - 2, int(b_) - 1, int(b_), int(b_) + 1, int(b_) + 2)} | {-1, 0, 1, 10 ** 6})
+        wrong: List[str] = []
+        undec = None
+        for v in grid:
+            r_, u_ = outcome(paths, point(var, v), cls, (var.replace("()", ""), "nbits", "nbytes", "cap", "number", "value"))
+            if r_ is None:
+                undec = u_
+                break
+            inside = lo <= v <= hi
+            if r_ == inside:
+                wrong.append(f"{var} = {v} is {'rejected' if r_ else 'accepted'}")
+        res.inst(part="interval", error=cls, where=qual, documented=str(want), grid=len(grid), wrong=wrong[:3], undecided=undec)
+        if undec is not None:
+            # is the bound applied to another quantity?
+            names = set()
+            for p_ in paths:
+                if p_.done == "raise" and any(cls in e.name for e in p_.effects if e.kind == "raise"):
+                    for k_, _t in p_.guards:
+                        for x in k_[1:]:
+                            if hasattr(x, "terms"):
+                                names |= {(a_[1] if a_[0] == "var" else a_[1] + "()") for a_ in _atoms_of(x) if a_[0] in ("var", "mcall", "call")}
+            key = var.replace("self.", "").replace("()", "")
+            if names and not any(key in n_ for n_ in names) and any(n_.rstrip("()") in ("nbytes", "nbits", "cap", "number", "value") or "nbytes" in n_ for n_ in names):
+                other = sorted(names)[0]
+                res.bad(Finding("C1", fi.rel, fi.node.lineno, qual, undec, f"the documented limit on `{var}` is applied to `{other}` instead", witness=example + " (e.g. an extensible message whose fields alone fit but whose 16-bit prefix pushes it over the limit)", tag=f"{cls}:quantity"))
+            else:
+                res.unsure(f"C1: {qual}: `raise {cls}` is not decided by {var} alone ({undec})")
             continue
-        if got != want:
-            # which boundary value now behaves wrongly
-            wit = []
-            for b in (want[0] - 1, want[0], want[1], want[1] + 1):
-                if b in (INF, -INF) or b - 1 in (INF, -INF):
-                    continue
-                inside_want = want[0] <= b <= want[1]
-                inside_got = got[0] <= b <= got[1]
-                if inside_want != inside_got:
-                    wit.append(f"{var} = {int(b)} is {'accepted' if inside_got else 'rejected'}")
-            res.bad(Finding("C1", fi.rel, r.lineno, qual, src_of(_if_of(r)), f"accepted range of {var} is {_fmt(got)}, documented {_fmt(want)}", witness="; ".join(wit) or example, tag=f"{cls}:interval"))
-        if not _missing_guard_ok(r, fi.node):
-            pass
+        if wrong:
+            res.bad(Finding("C1", fi.rel, fi.node.lineno, qual, "; ".join(wrong[:4]), f"accepted range of {var} differs from the documented {_fmt(want)}: {'; '.join(wrong[:4])}", witness="; ".join(wrong[:2]) or example, tag=f"{cls}:interval"))
 
     # ---- Uint/Int validators skip only the _is_missing sentinel
-    for qual in ("Uint.validate_post_freeze", "Int.validate_post_freeze"):
-        fi = m.func("_ast.py", qual)
-        early = [st for st in fi.node.body if isinstance(st, ast.If) and any(isinstance(x, ast.Return) for x in st.body)]
-        res.inst(part="interval", where=qual, early_returns=[src_of(e.test) for e in early])
-        for e in early:
-            if src_of(e.test) != "self._is_missing":
-                res.bad(Finding("C1", fi.rel, e.lineno, qual, src_of(e.test), "the width check is skipped under a condition other than the internal missing-type sentinel", tag=f"{qual}:skip"))
+    for cname, cls in (("Uint", "InvalidUintCap"), ("Int", "InvalidIntCap")):
+        qual = f"{cname}.validate_post_freeze"
+        try:
+            fi, paths = hook_paths(cname, "validate_post_freeze")
+        except Inconclusive as e:
+            res.unsure(f"C1: {e}")
+            continue
+        skipped = []
+        for v in (0, 65):
+            r_, u_ = outcome(paths, by_name({"self.cap": v, "self._is_missing": 1}), cls, ("cap",))
+            skipped.append(r_)
+        res.inst(part="interval", where=qual, missing_sentinel_skips=skipped)
+        other_lits = sorted({_show(k_[1]) for p_ in paths for k_, _t in p_.guards if k_[0] == "truthy" and _show(k_[1]) not in ("self._is_missing",)})
+        if other_lits:
+            res.bad(Finding("C1", fi.rel, fi.node.lineno, qual, str(other_lits), "the width check is skipped under a condition other than the internal missing-type sentinel", tag=f"{qual}:skip"))
 
-    # ---- max_bytes
-    fi = m.func("_ast.py", "Message.validate_post_freeze")
-    rs = _raises_of(fi.node, "MessageSizeOverflows")
-    res.inst(part="max_bytes", raises=len(rs))
-    if len(rs) < 2:
-        res.bad(Finding("C1", fi.rel, fi.node.lineno, "Message.validate_post_freeze", "", "the max_bytes option is not enforced (second MessageSizeOverflows raise missing)", witness="message M { option max_bytes = 1; uint32 a = 1 }", tag="max_bytes:missing"))
-    else:
-        conds = {("" if truth else "not ") + src_of(t) for t, truth in facts_at(rs[1], fi.node, skip_raise_siblings=True)}
-        if conds not in ({"max_bytes > 0", "self.nbytes() > max_bytes"}, {"max_bytes", "self.nbytes() > max_bytes"}, {"max_bytes != 0", "self.nbytes() > max_bytes"}):
-            res.bad(Finding("C1", fi.rel, rs[1].lineno, "Message.validate_post_freeze", str(sorted(conds)), "max_bytes is not enforced as `max_bytes > 0 and nbytes() > max_bytes`", witness="option max_bytes = 4 with a 4-byte / 5-byte message", tag="max_bytes:form"))
-        mb = [n for n in ast.walk(fi.node) if isinstance(n, ast.Assign) and src_of(n.targets[0]) == "max_bytes"]
-        if not (len(mb) == 1 and src_of(mb[0].value) == "self.get_option_as_int_or_raise('max_bytes')"):
-            res.bad(Finding("C1", fi.rel, fi.node.lineno, "Message.validate_post_freeze", "", "max_bytes is not read from this message's max_bytes option", tag="max_bytes:source"))
+    # ---- max_bytes: raise iff max_bytes > 0 and nbytes() > max_bytes
+    try:
+        fi, paths = hook_paths("Message", "validate_post_freeze")
+        wrong = []
+        undec = None
+        for M in (0, 1, 4):
+            for nb in (0, 1, 3, 4, 5, 9):
+                r_, u_ = outcome(paths, by_name({}, {"get_option_as_int_or_raise": M, "nbytes": nb, "nbits": nb * 8}), "MessageSizeOverflows", ("nbytes", "nbits", "get_option"))
+                if r_ is None:
+                    undec = u_
+                    break
+                if r_ != (M > 0 and nb > M):
+                    wrong.append(f"max_bytes = {M}, {nb} bytes: {'rejected' if r_ else 'accepted'}")
+            if undec:
+                break
+        opt_args = {_show(a_[2][1]) for p_ in paths for k_, _t in p_.guards for x in k_[1:] if hasattr(x, "terms") for a_ in _atoms_of(x) if a_[0] == "mcall" and a_[1] == "get_option_as_int_or_raise" and len(a_[2]) > 1}
+        res.inst(part="max_bytes", wrong=wrong[:3], undecided=undec, option=sorted(opt_args))
+        if undec:
+            res.unsure(f"C1: Message.validate_post_freeze: max_bytes enforcement not decided by (max_bytes, nbytes): {undec}")
+        elif wrong:
+            res.bad(Finding("C1", fi.rel, fi.node.lineno, "Message.validate_post_freeze", "; ".join(wrong[:4]), "max_bytes is not enforced as `max_bytes > 0 and nbytes() > max_bytes`: " + "; ".join(wrong[:3]), witness="option max_bytes = 4 with a 4-byte / 5-byte message", tag="max_bytes:form"))
+        if opt_args != {"'max_bytes'"}:
+            if not opt_args:
+                res.bad(Finding("C1", fi.rel, fi.node.lineno, "Message.validate_post_freeze", "", "the max_bytes option is not enforced (no limit read from the message's options)", witness="message M { option max_bytes = 1; uint32 a = 1 }", tag="max_bytes:missing"))
+            else:
+                res.bad(Finding("C1", fi.rel, fi.node.lineno, "Message.validate_post_freeze", str(sorted(opt_args)), "max_bytes is not read from this message's max_bytes option", tag="max_bytes:source"))
+    except Inconclusive as e:
+        res.unsure(f"C1: {e}")
 
     # ---- enum value overflow / duplicates / duplicate field numbers
     def membership(qual: str, cls: str, want_tests: Set[str], example: str) -> None:
@@ -301,22 +371,42 @@ def c1(repo: Repo) -> RuleResult:
         if {c.name for c in doms["ElemType"]} != {"Bool", "Byte", "Int", "Uint", "Enum", "Message", "Alias"}:
             res.bad(Finding("C1", AST, etc.node.lineno if etc else 0, "Array.element_type_constraints", str(names), "the admitted element kinds differ from the documented bool/byte/int/uint/enum/message/alias", tag="element_type_constraints:set"))
 
-    # options: unknown / wrong type / validator
+    # options: unknown / wrong type / validator - from the paths of the push validator (helpers inlined)
     fi = m.func("_ast.py", "ScopeWithOptions.validate_option_on_push")
-    txt = src_of(fi.node)
     res.inst(part="options", where=fi.qual)
-    r1 = _raises_of(fi.node, "UnsupportedOption")
-    r2 = _raises_of(fi.node, "InvalidOptionValue")
-    if not r1 or {("" if t else "not ") + src_of(e) for e, t in facts_at(r1[0], fi.node, skip_raise_siblings=True)} != {"not descriptor"}:
-        res.bad(Finding("C1", fi.rel, fi.node.lineno, fi.qual, "", "an option without descriptor is not rejected with UnsupportedOption", witness="option foo.bar = 1", tag="option:unknown"))
-    if "descriptor = self.get_option_descriptor(option.name)" not in txt:
-        res.bad(Finding("C1", fi.rel, fi.node.lineno, fi.qual, "", "the descriptor is not looked up by the option's own name", tag="option:lookup"))
-    ok_type = any({("" if t else "not ") + src_of(e) for e, t in facts_at(r, fi.node, skip_raise_siblings=True)} == {"not isinstance(option, class_)"} for r in r2)
-    ok_val = any({("" if t else "not ") + src_of(e) for e, t in facts_at(r, fi.node, skip_raise_siblings=True)} == {"validator is not None", "not validator(option.value)"} for r in r2)
-    if not ok_type or "class_ = descriptor.class_" not in txt:
-        res.bad(Finding("C1", fi.rel, fi.node.lineno, fi.qual, "", "an option whose value type differs from its descriptor is not rejected", witness='option c.struct_packing_alignment = "x"', tag="option:type"))
-    if not ok_val or "validator = descriptor.validator" not in txt:
-        res.bad(Finding("C1", fi.rel, fi.node.lineno, fi.qual, "", "the option's validator is not applied to its value", witness="option c.struct_packing_alignment = 9", tag="option:validator"))
+    try:
+        po = fi.node.args.args[1].arg
+        fl_ = compiler_flow(repo, "ScopeWithOptions", "_ast.py", primitives=("get_option_descriptor",), pure=("get_option_descriptor", "from_token"))
+        from .normal import V as _V
+
+        paths = fl_.run(fi.node, {fi.node.args.args[0].arg: _V("self"), po: _V("option")})
+        DESC = "self.get_option_descriptor(option.name)"
+        unknown_ok = type_ok = validator_ok = False
+        lookup_ok = any(DESC in g for p_ in paths for g in p_.guard_text())
+        for p_ in paths:
+            rz = [e for e in p_.effects if e.kind == "raise"]
+            if p_.done != "raise" or not rz:
+                continue
+            g = p_.guards
+            if "UnsupportedOption" in rz[-1].name:
+                if g and ((g[-1][0][0] == "truthy" and _show(g[-1][0][1]) == DESC and g[-1][1] is False) or (g[-1][0][0] == "isnone" and _show(g[-1][0][1]) == DESC and g[-1][1] is True)):
+                    unknown_ok = True
+            if "InvalidOptionValue" in rz[-1].name and g:
+                k_, t_ = g[-1]
+                if k_[0] == "isinstance" and t_ is False and _show(k_[1]) == "option" and list(k_[2]) == [DESC + ".class_"]:
+                    type_ok = True
+                if k_[0] == "truthy" and t_ is False and _show(k_[1]) in (f"{DESC}.validator(option.value)", f"({DESC}.validator)(option.value)") or (k_[0] == "truthy" and t_ is False and "validator" in _show(k_[1]) and _show(k_[1]).endswith("(option.value)")):
+                    validator_ok = True
+        if not unknown_ok:
+            res.bad(Finding("C1", fi.rel, fi.node.lineno, fi.qual, "", "an option without descriptor is not rejected with UnsupportedOption", witness="option foo.bar = 1", tag="option:unknown"))
+        if not lookup_ok:
+            res.bad(Finding("C1", fi.rel, fi.node.lineno, fi.qual, "", "the descriptor is not looked up by the option's own name", tag="option:lookup"))
+        if not type_ok:
+            res.bad(Finding("C1", fi.rel, fi.node.lineno, fi.qual, "", "an option whose value type differs from its descriptor is not rejected", witness='option c.struct_packing_alignment = "x"', tag="option:type"))
+        if not validator_ok:
+            res.bad(Finding("C1", fi.rel, fi.node.lineno, fi.qual, "", "the option's validator is not applied to its value", witness="option c.struct_packing_alignment = 9", tag="option:validator"))
+    except Inconclusive as e:
+        res.unsure(f"C1: {fi.qual}: {e}")
 
     # option validators in options.py
     opts = read_option_descriptors(repo)
